@@ -109,7 +109,8 @@ def conf_full(seed, knobs=None):
     s.append({"op": "tick", "n": rng.randint(0, 8)})
     cmds = ["incr", "decr", "set_np", "set_multi", "restart", "reload", "kill", "stop", "start", "status", "numprocesses",
             "signal", "list", "get", "globaloptions", "listsockets"]
-    p = {"cmds": k.get("cmds", cmds), "childsel": k.get("childsel", 0.2), "patterns": k.get("patterns", 0.15)}
+    p = {"cmds": k.get("cmds", cmds), "childsel": k.get("childsel", 0.2), "patterns": k.get("patterns", 0.15),
+         "childany": k.get("childany", 0.1)}
     for _ in range(rng.randint(2, k["steps"])):
         r = rng.random()
         w = rng.choice(names)
@@ -163,12 +164,12 @@ PROFILES.update({
                          "numprocesses", "get", "globaloptions", "listsockets", "options", "stats"], "stubborn": 0.6, "partial": 0.5, "steps": 20},
     "events": {"cmds": ["incr", "decr", "set_np", "reload", "kill", "stop", "start", "restart"], "kcall_deaths": 0.5,
                "steps": 30},
-    "excl": {"cmds": ["start", "stop", "restart", "reload", "incr", "decr", "set_np", "set_opt", "set_opt", "kill"], "stubborn": 0.5, "partial": 0.7,
+    "excl": {"cmds": ["start", "stop", "restart", "reload", "incr", "decr", "set_np", "set_opt", "set_opt", "kill", "rm"], "stubborn": 0.5, "partial": 0.7,
              "hooks": ["before_start", "after_start", "before_spawn"], "faults": 0.2, "singleton": True,
              "deaths": False, "steps": 20},
     "hooks": {"sigkill": 0.35, "sighook": 0.4, "hooks": HOOK_NAMES[:8], "cmds": ["start", "stop", "restart", "signal", "kill", "reload"],
               "stubborn": 0.5, "steps": 16},
-    "signals": {"watchers": 3, "stop_children": True, "fork": 0.25, "anypid": 0.7, "cmds": ["signal", "signal", "kill", "stop", "incr"],
+    "signals": {"watchers": 3, "stop_children": True, "fork": 0.25, "anypid": 0.7, "childany": 0.3, "childsel": 0.2, "cmds": ["signal", "signal", "kill", "stop", "incr"],
                 "steps": 18},
     "boot": {"watchers": 4, "autostart": True, "patterns": 0.5, "hooks": ["before_spawn", "after_spawn"], "slowhooks": 0.8,
              "Ws": [0.1, 0.2, 0.3], "cmds": ["restart", "start", "stop"], "steps": 8, "kcall_deaths": 0.6,
@@ -190,6 +191,8 @@ def directory(seed, conf=False):
     sc = {"seed": seed, "watchers": ws, "check_delay": rng.choice([0.3, 0.5]), "warmup_delay": 0.0,
           "stubborn": [n for n in init if rng.random() < 0.3], "obeys": [True, True, False, True],
           "instant_death": False, "script": [{"op": "boot"}, {"op": "tick", "n": rng.randint(0, 6)}]}
+    if seed % 4 == 3:       # endpoint-owner mode: only an add that names the owner as uid is let in
+        sc["endpoint_owner"] = "root"
     s = sc["script"]
     released = set()      # names removed with nostop: their workers live on; the name is not re-added, so that
     for _ in range(rng.randint(4, 16)):      # two observable watchers never share a (case-insensitive) name
@@ -203,6 +206,10 @@ def directory(seed, conf=False):
                                  "warmup_delay": rng.choice([0, 0.1])}}
             if rng.random() < 0.15:
                 props["options"]["singleton"] = True
+            if sc.get("endpoint_owner"):
+                u = rng.choice([None, "root", "root", "nobody", 0])
+                if u is not None:
+                    props["options"]["uid"] = u
             s.append({"op": "req", "cmd": "add", "props": props})
         elif r < 0.5:
             ns = rng.random() < 0.3
@@ -244,6 +251,8 @@ def refusal(seed):
           {"name": "w3", "np": rng.choice([0, 1]), "G": 0.1, "W": 0.0, "autostart": rng.random() < 0.5}]
     sc = {"seed": seed, "watchers": ws, "check_delay": 0.5, "warmup_delay": 0.0, "stubborn": ["w1"] if rng.random() < 0.5 else [],
           "obeys": [True], "instant_death": False, "script": [{"op": "boot"}, {"op": "tick", "n": rng.randint(2, 8)}]}
+    if seed % 5 == 4:
+        sc["endpoint_owner"] = "root"
     s = sc["script"]
     names = ["w1", "w2", "w3", "W1", "nosuch", "", 7]
     sigs = ["bogus", "SIG", "", 99999, "TERM ", None, [], "KILL!"]
@@ -302,6 +311,14 @@ def refusal(seed):
         if k == 9:
             return {"op": "req", "cmd": "add", "props": {"name": rng.choice(["w1", "W2", "w3"]), "cmd": "simworker x",
                                                          "start": rng.random() < 0.5}}
+        if k == 10 and sc.get("endpoint_owner") and rng.random() < 0.7:
+            # endpoint-owner mode: an otherwise perfect add without the owner's uid
+            o = {"numprocesses": 1}
+            u = rng.choice([None, "nobody", 0, "ROOT"])
+            if u is not None:
+                o["uid"] = u
+            return {"op": "req", "cmd": "add", "props": {"name": "n%d" % rng.randint(1, 3), "cmd": "simworker x",
+                                                         "start": rng.random() < 0.5, "options": o}}
         if k == 10:
             return {"op": "req", "cmd": "add", "props": {"name": "n%d" % rng.randint(1, 3), "cmd": "simworker x",
                                                          "options": rng.choice([{"nosuch": 1}, {"numprocesses": "x"},
